@@ -85,6 +85,9 @@ func GenBase(r *rng.R, c Cfg) *World {
 		}
 		wl := Workload{Ns: ns, Name: fmt.Sprintf("w%d", i), Kind: rng.Pick(r, c.Kinds), Labels: randLabels(r, 0.55)}
 		wl.Ports = GenCPorts(r, c)
+		if wl.Kind != KPod && wl.Kind != KOwnedPods && r.P(0.3) {
+			wl.ObjLabels = randLabels(r, 0.6) // labels of the controller object (and of a CronJob's job template), not of its pods
+		}
 		switch wl.Kind {
 		case KDeployment, KReplicaSet, KStatefulSet, KRC, KJob:
 			if r.P(0.6) {
@@ -326,6 +329,9 @@ func GenNetPol(r *rng.R, w *World, c Cfg, ns, name string) NetPol {
 	default:
 		np.HasTypes, np.PolicyTypes = true, []string{"Ingress", "Egress"}
 	}
+	if r.P(0.2) { // a direction without rules may be spelled as an empty list or null instead of leaving the key out
+		np.EmptySpelling = rng.Pick(r, []string{"list", "list", "null"})
+	}
 	return np
 }
 
@@ -460,6 +466,9 @@ func GenSubject(r *rng.R, w *World) Subject {
 func GenANPPorts(r *rng.R, c Cfg) ([]ANPPort, bool) {
 	if r.P(0.3) {
 		return nil, false
+	}
+	if r.P(0.05) {
+		return fullPortTriple(r), true
 	}
 	ps := []ANPPort{}
 	for n := r.Range(1, 3); n > 0; n-- {
